@@ -14,7 +14,7 @@ Lemma posR_false x : ~ 0 < x -> posR x = false.
 Proof. intros H. unfold posR. destruct (Rlt_dec 0 x); [contradiction | reflexivity]. Qed.
 
 Ltac eval_model :=
-  repeat (cbv -[Rplus Rminus Rmult Rdiv Ropp Rinv RInt ln is0R posR Q2R II JJ];
+  repeat (cbv -[Rplus Rminus Rmult Rdiv Ropp Rinv RInt ln is0R posR ltR Q2R II JJ];
           match goal with
           | H : is0R ?x = false |- context [is0R ?x] => rewrite H
           | H : posR ?x = true |- context [posR ?x] => rewrite H
